@@ -183,7 +183,8 @@ Theorem pspace_getitem_slice_is_selection : forall dv (l : list (obj R)) w f s b
   ogetitem dv (OProd l w f) (PSlice s) = Ok b ->
   exists ps ss, slice_positions (Z.of_nat (List.length l)) s = Ok ps /\
     Forall2 (fun p x => nth_error l (Z.to_nat p) = Some x) ps ss /\
-    b = OProd ss (match sub_w dv w with Some w' => w' | None => default_ps_w end) f.
+    exists f', b = OProd ss (match sub_w dv w with Some w' => w' | None => default_ps_w end) f' /\
+               (f <> FNone -> f' = f).
 Proof. exact (@getitem_slice_spec R _). Qed.
 Theorem pspace_getitem_slice_never_index_error : forall (l : list (obj R)) s,
   select_slice l s <> ErrIndex /\ select_slice l s <> ErrType.
@@ -342,3 +343,29 @@ Theorem element_index_result_space : forall (t : tsp R) data idx t' d,
   (is_numeric (ts_dtype t) = true -> (forall k i e, ts_w t <> WArray k i e) -> ts_w t' = ts_w t).
 Proof. exact (@tens_getitem_space R _). Qed.
 Print Assumptions element_index_result_space.
+
+(* ================================================================ chains of derivations
+   The correspondence applies chains of derivations to ONE object (each step to the previous
+   result or again to the source), so every cache the code keeps is exercised, and compares
+   with this cache-free model.  For the model, for every chain of astype / real_space /
+   complex_space steps of any length: *)
+Theorem derivation_chain_keeps_structure : forall dv steps (src cur b : obj R),
+  skel_of cur = skel_of src -> run_chain dv src cur steps = Ok b -> skel_of b = skel_of src.
+Proof. exact (@chain_skel R _). Qed.
+Theorem derivation_chain_dtype_decided_by_last_step : forall dv steps fs op (src b : obj R),
+  run_chain dv src src (steps ++ [(fs, op)]) = Ok b ->
+  match op with
+  | CReal => Forall (fun t => is_real_dt (ts_dtype t) = true) (leaves b)
+  | CComplex => Forall (fun t => is_complex_floating (ts_dtype t) = true) (leaves b)
+  | CAstype d => is_available d = true -> Forall (fun t => ts_dtype t = d) (leaves b)
+  end.
+Proof. exact (@chain_last_step R _). Qed.
+Print Assumptions derivation_chain_dtype_decided_by_last_step.
+(* the regenerated TYPE_MAP tables: float16 -> complex64 -> float32 (the round trip does not
+   return to half precision); for every other real floating type it does *)
+Example counterpart_round_trip :
+  r2c DFloat16 = Some DComplex64 /\ c2r DComplex64 = Some DFloat32 /\
+  forallb (fun d => match r2c d with
+                    | Some c => match c2r c with Some r => dtype_eqb r d || dtype_eqb d DFloat16 | None => false end
+                    | None => true end) all_dtypes = true.
+Proof. repeat split. Qed.
